@@ -1,6 +1,7 @@
 //! Dispatch from property ids to engines.
 pub mod codegen;
 pub mod heapbfs;
+pub mod subst;
 
 use crate::framework::*;
 use crate::pipeline::Arch;
@@ -14,6 +15,7 @@ pub fn run_worker(check: &str, ctx: &WorkerCtx, _extra: &[String]) -> Report {
         "C08" => codegen::worker(ctx, Arch::Rv64, codegen::Mode::Semantics),
         "C09" => heap_worker(ctx, false),
         "C10" => heap_worker(ctx, true),
+        "C11" => subst::worker(ctx),
         "C13" => {
             let mut r = codegen::worker(ctx, Arch::X86, codegen::Mode::CallConv);
             r.merge(codegen::worker(ctx, Arch::A64, codegen::Mode::CallConv));
@@ -180,6 +182,16 @@ pub fn run_check(id: &str, tier: Tier) -> i32 {
             let meta = heap_meta(if id == "C09" { "C09" } else { "C10" });
             finish(&meta, tier, started, rep, Map::new())
         }
+        "C11" => {
+            let rep = run_sharded(id, tier, &[]);
+            let meta = CheckMeta {
+                property: "C11",
+                level: "model_checking",
+                rule: "complete enumeration of substitution configurations: every function from a new window of m variables to an old window of n variables (n, m <= 4 quick / <= 5 thorough), every integer/object kind assignment of the old window, every window offset across the register/spill boundary (x86-64 0..8, AArch64 8..16, RV64 0..9 identity variables in front), with and without all objects aliasing one block, on all three backends. Each case compiles one real Substitute statement, runs it from a pre-state with distinct sentinels and checks the post-state: simultaneous assignment, reference counts (+copies-1), each dropped last reference released exactly once onto the deferred list, and nothing else changed (heap words, heap register, stack pointer, stack above the spill area). Distinct by configuration; all configurations execute generated code.".into(),
+                assumptions: vec!["emulators as C06-C08".into(), "pre-state object counts 0/1/2 by block index; aliased block count = holders - 1 + (holders mod 2)".into()],
+            };
+            finish(&meta, tier, started, rep, Map::new())
+        }
         "C13" => {
             let rep = run_sharded(id, tier, &[]);
             let meta = CheckMeta {
@@ -222,6 +234,21 @@ pub fn replay(id: &str, path: &str) -> i32 {
             }
             None => {
                 eprintln!("case not found");
+                2
+            }
+        },
+        Some("subst") => match subst::replay(case) {
+            Ok(Some(msg)) => {
+                println!("[{id}] replay: {msg}");
+                println!("VIOLATION property={id} replay={path}");
+                1
+            }
+            Ok(None) => {
+                println!("[{id}] replay: configuration behaves as a simultaneous assignment");
+                0
+            }
+            Err(e) => {
+                eprintln!("replay failed: {e}");
                 2
             }
         },
